@@ -399,7 +399,19 @@ def run_unit(name, tier, repo=None, cache=None, probes=True):
     base = dict(unit=unit.NAME, backend=unit.BACKEND, status='ok', reason=None, obligations=[], functions=[],
                 trusted=[], probes=dict(emitted=0, rejected=0, unplaceable=0), notes=[])
     try:
-        text = unit.build(ctx)
+        helper_requests = []
+        for _round in range(5):
+            ctx = unitlib.Ctx(repo, unit.NAME, unit.BACKEND)
+            ctx.helper_requests = list(helper_requests)
+            text = unit.build(ctx)
+            if '// @HELPERS' not in text:
+                break
+            missing = find_missing_callees(unit, ctx, text, workdir, repo)
+            new = [m for m in missing if m not in helper_requests]
+            if not new:
+                break
+            helper_requests += new
+        base['helpers'] = list(ctx.helpers)
         base['functions'] = [dict(key=e.key, file=e.file, lines=list(e.span), sha256=e.sha256, rules=e.rules) for e in ctx.extracted]
         base['trusted'] = trusted_scan(text) + list(getattr(unit, 'TRUSTED_EXTRA', []))
         base['notes'] = ctx.notes
@@ -418,6 +430,70 @@ def run_unit(name, tier, repo=None, cache=None, probes=True):
     base['unit_wall_s'] = round(time.time() - t0, 2)
     base['module'] = name
     return base
+
+
+MISSING_RES = [re.compile(r"cannot find function `(\w+)`"),
+               re.compile(r"named `(\w+)` found for (?:struct|enum|union|type alias|type) `(\w+)"),
+               re.compile(r"no method named `(\w+)` found for (?:struct|enum|union|reference|mutable reference) `[&a-z ]*(\w+)")]
+
+
+def find_missing_callees(unit, ctx, text, workdir, repo):
+    """compile the rendered unit quickly (no verification) and map unresolved function names to items of the source files
+    the unit draws from"""
+    from extract import SourceFile
+    msgs = []
+    if unit.BACKEND == 'verus':
+        path = os.path.join(workdir, unit.NAME + '__resolve.rs')
+        with open(path, 'w') as f:
+            f.write(text)
+        r = run_verus(path, extra=['--no-verify'])
+        msgs = [d.get('message', '') for d in r['diags'] if d.get('level') == 'error']
+    else:
+        crate = os.path.join(workdir, 'resolve')
+        os.makedirs(os.path.join(crate, 'src'), exist_ok=True)
+        with open(os.path.join(crate, 'Cargo.toml'), 'w') as f:
+            f.write('[package]\nname = "resolve"\nversion = "0.0.0"\nedition = "2021"\n[workspace]\n[lints.rust]\nunexpected_cfgs = { level = "allow", check-cfg = ["cfg(kani)"] }\n')
+        with open(os.path.join(crate, 'src', 'lib.rs'), 'w') as f:
+            f.write(text)
+        env = dict(os.environ, CARGO_NET_OFFLINE='true', CARGO_TARGET_DIR=os.path.join(workdir, 'resolve-target'))
+        p = subprocess.run(['cargo', 'check', '--offline', '--message-format=short', '-q'], cwd=crate, capture_output=True, text=True, env=env)
+        msgs = [l for l in p.stderr.split('\n') if 'error' in l]
+    wanted = []
+    for m in msgs:
+        for rx in MISSING_RES:
+            mm = rx.search(m)
+            if mm:
+                wanted.append((mm.group(1), mm.group(2) if mm.lastindex and mm.lastindex > 1 else None))
+    if not wanted:
+        return []
+    files = []
+    for e in ctx.extracted:
+        if e.file not in files:
+            files.append(e.file)
+    found = []
+    for (name, ty) in wanted:
+        for rel in files:
+            try:
+                sf = SourceFile(os.path.join(repo, rel))
+            except FileNotFoundError:
+                continue
+            hit = None
+            for it in sf.items:
+                if it.kw == 'fn' and it.name == name and ty is None:
+                    hit = (rel, None, name)
+                elif it.kw == 'impl' and it.body_open is not None:
+                    hdr = re.sub(r'\s+', ' ', it.header).strip()[len('impl'):].strip()
+                    if ty is not None and not re.search(r'\b%s\b' % re.escape(ty), hdr):
+                        continue
+                    if ' for ' in hdr and ty is None:
+                        continue
+                    for ch in sf._children(it):
+                        if ch.kw == 'fn' and ch.name == name:
+                            hit = (rel, hdr, name)
+            if hit and hit not in found:
+                found.append(hit)
+                break
+    return found
 
 
 def run_probes(unit, ctx, text, workdir):
@@ -535,17 +611,21 @@ def check_property(prop, tier, registry, seed=0):
     undecided = [r for r in results if r['status'] != 'ok']
     extra_checks = []
     hook_failures = []
-    for hook in spec.get('extra', []) if tier == 'thorough' or spec.get('extra_in_quick') else []:
+    exec_fail = []
+    for hook in spec.get('extra', []):
         try:
             res = hook(dict(repo=REPO, cache=CACHE, tier=tier, results=results, seed=seed))
-            extra_checks.append(res)
+            extra_checks.append(dict(res, failed=res.get('failed', [])[:5]))
+            if not res.get('ok') and prop in res.get('props', [prop]):
+                exec_fail.append(res)
         except Undecided as e:
-            undecided.append(dict(unit='extra:' + getattr(hook, '__name__', 'hook'), reason=str(e), status='undecided'))
+            undecided.append(dict(unit='extra:' + getattr(hook, '__name__', 'hook'), reason=str(e), status='undecided', backend='execution'))
     known_hit = [o for o in failed if o['id'] in known_ids]
     new = [o for o in failed if o['id'] not in known_ids]
     os.makedirs(EVID, exist_ok=True)
     os.makedirs(REPLAYS, exist_ok=True)
     violations = []
+    unit_helpers = {r['unit']: r.get('helpers', []) for r in results}
     for o in new:
         rp = os.path.join(REPLAYS, '%s-%s.json' % (prop, sanitize(o['id'])))
         replay = dict(property=prop, obligation=o['id'], prose=o['prose'], backend=o['backend'], unit=o['unit'],
@@ -561,9 +641,23 @@ def check_property(prop, tier, registry, seed=0):
                         suffix = ''
             except Exception as e:  # counterexample search is best effort
                 replay['counterexample_error'] = repr(e)
+        if suffix and o['backend'].startswith('verus') and unit_helpers.get(o['unit']):
+            # modular verification cannot see through a callee without contract: a failure here is not evidence of a defect
+            undecided.append(dict(unit=o['unit'], status='undecided', backend='verus',
+                                  reason='obligation %s cannot be discharged because the code now calls helper(s) %s that carry no contract, and no '
+                                         'failing input was found on the real code' % (o['id'], ', '.join(unit_helpers[o['unit']]))))
+            continue
         with open(rp, 'w') as f:
             json.dump(replay, f, indent=1)
         violations.append((o, rp, suffix))
+    for res in exec_fail:
+        f = res['failed'][0]
+        rp = os.path.join(REPLAYS, '%s-exec-%s.json' % (prop, sanitize(res['name'])))
+        with open(rp, 'w') as fh:
+            json.dump(dict(property=prop, obligation='execution:' + res['name'], prose=res.get('clause', ''), backend='execution on the real crate (hooks)',
+                           verifier_output=[], counterexample=dict(scenario=f['scenario'], args=f['args'], expected=f['expected']), observed=f['observed'],
+                           replayed_on_real_code=True, reproduced=True, tier=tier, all_failures=res['failed'][:10]), fh, indent=1)
+        violations.append((dict(id='execution:' + res['name'], prose=res.get('clause', '')), rp, ''))
     counted = [o for o in mine if o['id'] not in known_ids]
     discharged = [o for o in counted if o['status'] == 'discharged']
     trusted = []
